@@ -115,8 +115,9 @@ def lengths_and_radii(rows, secs, types, parents, single_point_soma, ncomp, min_
         total = sum(seg)
         L.append(total if total != 0.0 else 1.0)
         rs = [rad[p] for p in s]
-        if parents[i] > -1 and types[i] != types[parents[i]]:
-            rs[0] = rs[1]                    # no interpolation towards a neurite of another type
+        if len(s) > 1 and typ[s[0]] != types[i]:
+            rs[0] = rs[1]                    # the point shared with the parent has another type: the section uses its own radius
+                                             # there (also for a neurite on the FIRST point of a multi-point soma, F45)
         seg2 = [max(x, 1e-8) for x in seg]
         tot2 = sum(seg2)
         cut = [0.0]
